@@ -42,7 +42,7 @@ CATS = [
     (r"^index:Captures\|fp::stats::stats_collector::error_stats::ErrorStats::(check_errors_for_stave_id|sort_error_msgs_by_mem_pos)", "named group exists in the constant regex that produced the captures", []),
     (r"^unwrap\|fp::stats::stats_collector::error_stats::ErrorStats::check_errors_for_stave_id::\{closure#0\}\|::parse", "captured text is 1–5 digits printed from a u16 FEE ID by the tool's own `FEE ID:{feeid}` templates (≤ 65535)", []),
     (r"^expect\|fp::stats::stats_collector::error_stats::ErrorStats::check_errors_for_stave_id::\{closure#0\}\|::find", "an error naming a FEE ID is produced by a validator for a packet whose layer/stave the analysis thread recorded (LayerStaveSeen is sent for every analysed RDH before it is dispatched)", []),
-    (r"^(expect|panic:panic!)\|fp::stats::stats_collector::error_stats::ErrorStats::sort_error_msgs_by_mem_pos::", "every message reaching add_err starts with `{pos:#X}: ` (rule R7.5 of C07 checks all Error templates), so the `^0x[0-9A-F]+` capture exists and is ≤ 16 hex digits", []),
+    (r"^(expect|panic:panic!)\|fp::stats::stats_collector::error_stats::ErrorStats::sort_error_msgs_by_mem_pos::", "every message reaching add_err starts with `{pos:#X}: ` (rule R7.5 of C07 checks all Error templates), so the `^0x[0-9A-F]+` capture exists and is ≤ 16 hex digits", [{"kind": "error_templates_upper_hex"}]),
     (r"^panic:unreachable!\|fp::stats::collect_system_specific_stats\|", "system_id was assigned Some on the preceding lines of the same call (is_none branch) or earlier", []),
     # ---- scanner
     (r"^unwrap\|<AP::input_scanner::InputScanner<R> as AP::scan_cdp::ScanCDP>::load_rdh_cru\|::take\(arg1\.initial_rdh0\)", "inside `if self.initial_rdh0.is_some()`", []),
